@@ -1065,6 +1065,14 @@ func TestC17(t *testing.T) {
 	files := []fileCfg{
 		{"direct-nodata", noData},
 		{"built-w3-4level", builtFile(3, "size-16", 1000)},
+		{"built-single-block", builtFile(3, "size-4096", 700)},
+		{"hand-single-pb-inline", func(st *store.Store, rr *rand.Rand) (cid.Cid, []byte) {
+			// one dag-pb block with the content inline (what the reference writes with protobuf leaves)
+			content := gen.Content(rr, "rand", 300)
+			t2 := pb.Data_File
+			return st.PutBlock(1, cid.DagProtobuf, encodePB(mustMarshal(&pb.Data{Type: &t2, Data: content, Filesize: proto.Uint64(uint64(len(content)))}), true, nil)), content
+		}},
+		{"built-single-block+nodereifier", builtFile(3, "size-4096", 500)},
 		{"built-w174-2level", builtFile(174, "size-1024", 40960)},
 		{"hand-pb-nobs", handF(handFileOpts{Width: 3, PBLeaves: true, NoBlockSize: true, LeafType: 2}, 600, 20)},
 		{"hand-pb-nobs-nofs", handF(handFileOpts{Width: 2, PBLeaves: true, NoBlockSize: true, NoFileSize: true, LeafType: 0}, 300, 10)},
